@@ -21,6 +21,7 @@ BOUNDS = {
               dict(N=4, K=2, depths=(-1, 0, 1, 2, 3), modes=hitx.MODES, grouped=(False, True)),
               dict(N=4, K=3, depths=(1, 2), modes=("r0",), grouped=(False,)),
               dict(N=4, K=3, depths=(1, 2), modes=("r0", "rp"), grouped=(False,), kinds=hitx.KINDS_LBL),
+              dict(N=4, K=2, depths=(1, 2), modes=("r0", "rp", "rk"), grouped=hitx.HOWS),
               dict(N=4, K=3, depths=(1, 2), modes=("r0",), grouped=("shared", "bound"), kinds=("p", "q", "d1", "k"))],
         ties=[],
         streams="quick",
@@ -31,6 +32,7 @@ BOUNDS = {
               dict(N=4, K=3, depths=(1, 2, 3), modes=hitx.MODES, grouped=(False, True)),
               dict(N=5, K=3, depths=(1, 2, 3), modes=("r0", "rd"), grouped=(False,)),
               dict(N=5, K=3, depths=(1, 2), modes=("r0", "rp"), grouped=(False,), kinds=hitx.KINDS_LBL),
+              dict(N=4, K=3, depths=(1, 2), modes=("r0", "rp", "rk"), grouped=hitx.HOWS),
               dict(N=4, K=4, depths=(1, 2), modes=("r0",), grouped=("shared", "bound"), kinds=("p", "q", "d1", "k"))],
         ties=[dict(N=4, K=4, depths=(1, 2), modes=("r0",), grouped=(False,))],
         streams="thorough",
@@ -239,7 +241,7 @@ def run_unit(unit, rec):
             for depth in blk["depths"]:
                 for mode in blk["modes"]:
                     for grouped in blk["grouped"]:
-                        if grouped and len(hits) < 2:
+                        if grouped in (True, "shared", "bound") and len(hits) < 2:
                             continue
                         run_config(rec, T, hits, depth, mode, grouped)
         rec.sample({"unit": list(unit), "last_configuration": [list(h) for h in hits], "text": T})
